@@ -1,0 +1,16 @@
+//go:build verif
+
+package pool
+
+// Contracts for the deductive verifier in /verif (comment-only file, build tag verif).
+
+// sync.Pool ownership: an object handed out by Get belongs to the caller alone until it is Put back, so for the
+// caller it behaves like a newly allocated one (assumption, not checked: nobody uses a digest after Put).
+//@ func hash64Pool.Get
+//@   ensures result != nil
+//@   fresh
+//@   modifies global(ext)
+//@   trusted sync.Pool ownership (exclusive between Get and Put)
+//@ func hash64Pool.Put
+//@   modifies global(ext)
+//@   trusted sync.Pool ownership (exclusive between Get and Put)
